@@ -355,7 +355,15 @@ func runCheck(eng *Eng, id, tier string, replay, keep bool, only string) int {
 	var knownObls []string
 	knownSet := map[*Obligation]bool{}
 	os.MkdirAll(filepath.Join(verifDir, "replay", "out"), 0o755)
+	suppressed := 0
 	for _, o := range failed {
+		if o.task != nil && len(o.task.errs) > 0 {
+			// The contract of this function could not be evaluated against the code as it is now (a local named by an
+			// invariant is gone, a loop changed shape, a construct left the subset): every failure in it is a consequence of
+			// the missing clause as likely as of the code. That is "needs contract", not a violation: UNDECIDED, exit 2.
+			suppressed++
+			continue
+		}
 		if kfe := kf.match(id, o); kfe != nil && kfe.Status == "known" && kfe.Except == "" {
 			// whole-obligation known finding: witness replay decides
 			if kf.witnessStillFails(eng, kfe) {
@@ -394,6 +402,9 @@ func runCheck(eng *Eng, id, tier string, replay, keep bool, only string) int {
 	}
 	for _, l := range knownLines {
 		fmt.Println(l)
+	}
+	if suppressed > 0 {
+		undecided = append(undecided, fmt.Sprintf("%d obligation(s) failed inside functions whose contract no longer evaluates against the code (listed above); not reported as violations", suppressed))
 	}
 	// bounded stand-ins (never counted as proved): real-code tests with a stated bound, for clauses no contract decides
 	var boundedOut []interface{}
